@@ -1,6 +1,7 @@
 package decoder
 
 import (
+	"reflect"
 	"strconv"
 	"unsafe"
 
@@ -11,10 +12,29 @@ type floatDecoder struct {
 	op         func(unsafe.Pointer, float64)
 	structName string
 	fieldName  string
+	bitSize    int // 32 for a float32 destination: a number beyond its range is an error, not ±Inf
 }
 
 func newFloatDecoder(structName, fieldName string, op func(unsafe.Pointer, float64)) *floatDecoder {
-	return &floatDecoder{op: op, structName: structName, fieldName: fieldName}
+	return &floatDecoder{op: op, structName: structName, fieldName: fieldName, bitSize: 64}
+}
+
+// parse converts a validated number literal for the destination width.
+func (d *floatDecoder) parse(str string, offset int64) (float64, error) {
+	f64, err := strconv.ParseFloat(str, d.bitSize)
+	if err != nil {
+		if d.bitSize == 32 {
+			return 0, &errors.UnmarshalTypeError{
+				Value:  "number " + str,
+				Type:   reflect.TypeOf(float32(0)),
+				Offset: offset,
+				Struct: d.structName,
+				Field:  d.fieldName,
+			}
+		}
+		return 0, errors.ErrSyntax(err.Error(), offset)
+	}
+	return f64, nil
 }
 
 var (
@@ -180,9 +200,9 @@ func (d *floatDecoder) DecodeStream(s *Stream, depth int64, p unsafe.Pointer) er
 		return errInvalidNumber(bytes, s.totalOffset())
 	}
 	str := *(*string)(unsafe.Pointer(&bytes))
-	f64, err := strconv.ParseFloat(str, 64)
+	f64, err := d.parse(str, s.totalOffset())
 	if err != nil {
-		return errors.ErrSyntax(err.Error(), s.totalOffset())
+		return err
 	}
 	d.op(p, f64)
 	return nil
@@ -205,9 +225,9 @@ func (d *floatDecoder) Decode(ctx *RuntimeContext, cursor, depth int64, p unsafe
 		return 0, errInvalidNumber(bytes, cursor)
 	}
 	s := *(*string)(unsafe.Pointer(&bytes))
-	f64, err := strconv.ParseFloat(s, 64)
+	f64, err := d.parse(s, cursor)
 	if err != nil {
-		return 0, errors.ErrSyntax(err.Error(), cursor)
+		return 0, err
 	}
 	d.op(p, f64)
 	return cursor, nil
